@@ -555,7 +555,7 @@ HELPERS = ("optimal_steps_binomial", "optimal_steps_mixed",
 class C15(Base):
     ID = "C15"
     TECHNIQUE = ('deterministic simulation: multi-tenant worlds under a seeded cooperative scheduler and a seeded pre-emptive scheduler (threads released one at a time at sys.settrace line events), streams compared with pristine-process baselines')
-    EXPECTED_PROBES = ('c15_baselines', 'c15_observer_pairs', 'e3_worlds', 'e3_excursions')
+    EXPECTED_PROBES = ('c15_baselines', 'c15_observer_pairs', 'e3_worlds', 'e3_excursions', 'e3_pinned_excursions')
     FORK_PER_RUN = True
     SIZES = {"quick": (32, 24), "thorough": (128, 64)}
     SLOTS = {"quick": (2, 6), "thorough": (2, 40)}
@@ -620,11 +620,54 @@ class C15(Base):
         ops += [["drain", 0], ["over", 0]]
         return ListDriver(ops)
 
+    PIN_SHARE = {"quick": 0.03, "thorough": 0.05}
+
+    def pinned(self, rng, tier):
+        """Engine E3, pinned sweep: two small tasks of one family; for k =
+        1..24 one world in which the second task's first library call (its
+        whole constructor) runs in the middle of the first task's
+        constructor, at its k-th line; plus 10 worlds in which a whole call
+        of the second task runs at a log-uniformly drawn line of the first
+        task's life (inside one of its next() calls).  Enumerates, rather
+        than samples, check-then-act windows on state shared between objects
+        within one call."""
+        fam = rng.choice((
+            ("Revolve", "DiskRevolve", "PeriodicDiskRevolve", "HRevolve",
+             "HRevolve"),
+            ("MultistageMax", "MultistageRev"), ("MultistageMax",
+                                                 "MultistageRev", "TwoLevel"),
+            ("MixedRAM", "MixedDISK"),
+            ("TwoLevel",), ("SingleMemory", "SingleDiskCopy",
+                            "SingleDiskMove", "None")))
+        tasks = []
+        for _ in range(2):
+            cfg = draw_cfg(rng, rng.choice(fam), 14, 12)
+            if cfg["N"] < 4:
+                cfg["N"] = rng.randint(4, 14)
+            if cfg["cls"] == "Multistage" and rng.random() < 0.7:
+                # both unit kinds really in use
+                cfg["p"]["r"] = rng.randint(1, 3)
+                cfg["p"]["d"] = rng.randint(1, 3)
+            tasks.append([cfg, draw_passes(rng, cfg, 2)])
+        if rng.random() < 0.4 and tasks[0][0]["cls"] == tasks[1][0]["cls"]:
+            # same size, other parameters: collisions on shared keys
+            tasks[1][0]["N"] = tasks[0][0]["N"]
+        seed = rng.getrandbits(48)
+        ops = [["e3", seed, tasks, 0, 0, 0, [0, "ctor", k]]
+               for k in range(1, 25)]
+        import math
+        for _ in range(10):
+            k = int(math.exp(rng.uniform(math.log(20), math.log(6000))))
+            ops.append(["e3", seed, tasks, 0, 0, 0, [0, "any", k]])
+        return ListDriver(ops)
+
     def plan(self, rng, tier, idx):
         nmax, rfmax = self.SIZES[tier]
         lo, hi = self.SLOTS[tier]
         if rng.random() < self.CROWD_SHARE[tier]:
             return self.crowd(rng, tier)
+        if rng.random() < self.PIN_SHARE[tier]:
+            return self.pinned(rng, tier)
         share = float(os.environ.get("VERIF_E3_SHARE") or self.E3_SHARE[tier])
         e3 = rng.random() < share
         nslots = rng.randint(lo, hi if (rng.random() < 0.2 and not e3)
